@@ -6,7 +6,9 @@ ID = 'C09'
 COQ_TARGETS = ['Props/Properties_C09.vo']
 PROPS_FILES = ['Props/Properties_C09.v']
 THEOREMS = ['C09_b64decode_safe', 'C09_b64_roundtrip', 'C09_b64_roundtrip_exact', 'C09_b64_valid_accepted', 'C09_b64_alphabet',
-            'C09_b64_strict_partial', 'C09_b64_strict_refuted']
+            'C09_b64_strict_partial', 'C09_b64_strict_refuted',
+            'C09_auth_exchange', 'C09_auth_identity', 'C09_auth_refused', 'C09_auth_fd3', 'C09_auth_fd3_fault',
+            'C09_auth_checker', 'C09_auth_strict', 'C09_auth_safe', 'C09_auth_cmd_row']
 ENGINES = [
     dict(name='b64', c_sources=['b64_h.c'], extract='Extract/Extract_b64.v', driver='b64_driver.ml',
          accepts=lambda c: c.startswith('d1 ') or c.startswith('e1 ')),
@@ -17,7 +19,19 @@ RULE = ('b64: decoder inputs = canonical encodings of random octet strings (0..6
         'mutations of them at every position class (NUL, =, CR, LF, 8-bit, non-alphabet), truncations, text after padding, '
         'non-zero padding bits, and groups over a 20-symbol representative alphabet (exhaustive over all 4-symbol strings in thorough); '
         'encoder inputs = random octet strings x wraplimit in {2^32-1, 76, 40, 8, 5, 4, 1, 0}; '
-        'non-trivial = decoder accepted a non-empty result or rejected an input of >= 4 octets; distinct by case text')
+        'non-trivial = decoder accepted a non-empty result or rejected an input of >= 4 octets; '
+        'auth: one AUTH command each = (configuration flags, previous authname, command line with mechanism in any case / unknown '
+        'mechanisms / initial response or not, client lines cut into net_readline results of 1..64 octets, read errors, missing lines, '
+        'extra lines, cancel, empty line, damaged and irregularly padded Base64, PLAIN payloads with 0..4 NUL-separated fields, '
+        'LOGIN values with embedded NUL, netwrite failure at the k-th reply, backend = stand-in answering 0/1/other/negative/tempnoauth '
+        'or the real checkpassword backend with a recording child exiting 0/1/111/killed or an injected pipe/fork/write/close/waitpid '
+        'failure); non-trivial = the backend was reached or an identity is set; distinct by case text')
+TRUSTED_BASE_AUTH = [
+    'translator tools/translators/auth.py: regexes over qsmtpd/auth.c, qsauth_backend_cp.c, qsmtpd.c produce the mechanism table, reply texts, offsets 5/11, chunk size 64, EDONE, the AUTH row of commands[]',
+    'hand-written model coq/Model/Auth.v tied to qsmtpd/auth.c + qsauth_backend_cp.c by the correspondence run (differential testing, bounded by the generator)',
+    'C harness harness/auth_h.c: #include of qsmtpd/auth.c, lib/base64.c, qsmtpd/child.c, qsauth_backend_cp.c; netnwrite/net_readline/tarpit/sleep/fork_clean/log replaced; '
+    'write/close/waitpid/wpipe of the backend wrapped for fault injection; the child is this binary re-executed as a recording checkpassword stand-in',
+]
 TRUSTED_BASE = [
     'Coq 8.16.1 kernel (coqc; coqchk in thorough); vm_compute for reflection over the 64-symbol alphabet and over pairs of sextets/octets',
     'axioms: none (Print Assumptions: Closed under the global context)',
@@ -25,11 +39,15 @@ TRUSTED_BASE = [
     'hand-written model coq/Model/Base64.v tied to lib/base64.c by the correspondence run (differential testing, bounded by the generator)',
     'extraction with ExtrOcamlBasic only; ocaml/glue.ml + ocaml/b64_driver.ml hex parsing/printing',
     'C harness harness/b64_h.c: #include of lib/base64.c, input ending at a PROT_NONE page; gcc 12 -O1 ASan+UBSan vs. production build',
-]
+] + TRUSTED_BASE_AUTH
 ASSUMPTIONS = [
     'malloc() succeeds (the -ENOMEM paths are not modelled)',
     'octets are < 256 (hypothesis of the round-trip theorem)',
     'b64encode: statements are for wraplimit above the output length (no line wrapping; qsmtpd/auth.c passes -1) and outputs shorter than 2^32',
+    'net_readline(64, buf) returns 1..64 octets or -1 with errno != 0 (hypothesis read_ok of C09_auth_safe; outside it the model says Crash and so does the C under ASan)',
+    'the backend answer depends only on (user, password) and it touches nothing but the replies and the pipe (be_wf; proved for the stand-in and for the checkpassword backend model)',
+    'the command dispatcher calls smtp_auth only for lines starting with "AUTH " in the state EHLO leaves (C09_auth_cmd_row checks the table row; the dispatcher itself belongs to the session engine); AUTHCRAM is off (default build)',
+    'tarpit() and sleep(5) only delay; the checkpassword program is a function of what it reads on descriptor 3',
 ]
 
 # ------------------------------------------------------------------ helpers mirrored from coq/Spec/Base64Spec.v
@@ -346,11 +364,16 @@ def distribution(results):
     return d
 
 
-LEVEL_TEXT = ('Machine-checked Coq theorems over an executable model of lib/base64.c (with the proposed NUL fix): b64decode never leaves its '
+LEVEL_TEXT = ('Machine-checked Coq theorems over executable models of qsmtpd/auth.c, the checkpassword backend and lib/base64.c: for every AUTH '
+              'PLAIN/LOGIN exchange (any command line, any client lines and segmentation, any write failure, any backend answer) authname is '
+              'non-empty afterwards iff the backend was asked exactly once, with exactly the decoded (user, password), and answered 0; refused '
+              'AUTH (already authenticated / no setup / forcesslauth without TLS) changes nothing; descriptor 3 receives user NUL password NUL NUL. '
+              'Codec (with the proposed NUL fix): b64decode never leaves its '
               'buffers and terminates for every input; decode(encode(x)) = x without trailing NULs for every octet string; every canonical '
               'Base64 text (with CRLF breaks) is decoded to the octets it stands for; everything b64decode consumes is alphabet, "=" or CRLF; '
               'and for inputs with regular padding b64decode accepts exactly the canonical texts. Irregular padding is a recorded finding.')
-LEVEL_NOTE = ('Trusted: Coq kernel, translator regexes, extraction (ExtrOcamlBasic), harness, generator quality of the correspondence run. '
-              'Partial: the strictness statement excludes the decidable class of inputs with irregular padding (known finding F-C09-1b).')
-TECHNIQUE = 'Coq proof by induction over groups of four via a consuming refinement of the literal model; reflection over the alphabet; model-vs-C differential run under ASan with guard pages'
+LEVEL_NOTE = ('Trusted: Coq kernel, translator regexes, extraction (ExtrOcamlBasic), harnesses, generator quality of the correspondence runs. '
+              'Partial: "malformed Base64 never authenticates" holds for inputs with regular padding only (known finding F-C09-1b: b64decode is lax '
+              'about padding); the link from authname to relaying and the Received line, and AUTH-before-EHLO, belong to the session engine; CRAM-MD5 is not modelled.')
+TECHNIQUE = 'Coq: state-machine model of the exchange over read/write/backend oracles, invariant proof against an executable checker; base64 by induction over groups of four via a consuming refinement of the literal model, reflection over the alphabet; model-vs-C differential runs under ASan with guard pages and a real forked checkpassword stand-in'
 DESIGN_REF = 'DESIGN.md section 5, C09'
